@@ -15,6 +15,7 @@ import (
 	amhelp "github.com/pancsta/asyncmachine-go/pkg/helpers"
 	am "github.com/pancsta/asyncmachine-go/pkg/machine"
 	"github.com/pancsta/asyncmachine-go/pkg/rpc/states"
+	"github.com/pancsta/asyncmachine-go/pkg/x/simhook"
 )
 
 // MuxNewServerFn is a function to create a new RPC server for each incoming
@@ -137,6 +138,11 @@ func (m *Mux) StartState(e *am.Event) {
 			return // expired
 		}
 
+		if m.Listener == nil {
+			if lis, _, ok := simhook.Listen("tcp4", addr); ok && lis != nil {
+				m.Listener = lis
+			}
+		}
 		// create a listener if not provided TODO websockets
 		if m.Listener == nil {
 			// use Start as the context
